@@ -315,6 +315,9 @@ def field_reads(fn, cleanup=False):
 # definitions / slices (A4)
 
 
+DEREF_LIKE = re.compile(r'(DerefMut::deref_mut|IndexMut::index_mut|AsMut::as_mut|::as_mut|::as_mut_slice|::get_mut|::iter_mut|::unwrap|::expect|::last_mut|::first_mut)$')
+
+
 class Defs:
     """def map for one function: local -> [(bb, idx, kind, payload)]
     kind 'st' (payload rvalue), 'call' (payload Call), 'callmut' (call that received
@@ -360,6 +363,12 @@ class Defs:
                 out.add(place[0])
                 # &mut (*x).f : x itself is a reference; writing through it changes x's referent
                 out |= self.ref_targets(place[0], depth + 1)
+        # l = deref_mut(&mut g) / index_mut(..) / as_mut(..): points into arg0's referent
+        for (_, _, k, p) in self.defs.get(l, []):
+            if k == 'call' and DEREF_LIKE.search(p.generic) and 'mut' in self.fn.locals[l][:5]:
+                a = p.arg_local(0)
+                if a is not None and a != l:
+                    out |= self.ref_targets(a, depth + 1)
         # l = move other  (reborrow/move of a &mut)
         for (_, _, k, p) in self.defs.get(l, []):
             if k == 'st' and p[1][0] == 'use' and p[1][1][0] in ('c', 'm') and not p[1][1][1][1]:
@@ -383,7 +392,7 @@ class Slice:
         return 'Slice(fields=%s calls=%s params=%s)' % (sorted(self.fields), sorted(self.calls), sorted(self.params))
 
 
-def backward_slice(fn, start_ops, defs=None, cut_calls=(), max_nodes=4000):
+def backward_slice(fn, start_ops, defs=None, cut_calls=(), max_nodes=4000, cd=None):
     """Flow-insensitive backward data-dependence slice from operands / locals.
     start_ops: iterable of operands (['c'|'m', place] / ['k', ..]) or ints (locals).
     cut_calls: name patterns; a call to one of them stops the walk (sanitizer)."""
@@ -424,7 +433,16 @@ def backward_slice(fn, start_ops, defs=None, cut_calls=(), max_nodes=4000):
         sl.locals.add(l)
         if 1 <= l <= fn.argc:
             sl.params.add(l)
-        for (_, _, k, p) in defs.defs.get(l, []):
+        dl = defs.defs.get(l, [])
+        if cd is not None and len([d for d in dl if d[2] != 'callmut']) >= 2:
+            # merge of several definitions (`a || b`, `if c {x} else {y}`): the value also
+            # depends on the tests that choose between them
+            for (dbb, _, _, _) in dl:
+                for (a, _s) in cd.get(dbb, ()):
+                    t = fn.bbs[a]['t']
+                    if t[0] == 'sw':
+                        add_op(t[1])
+        for (_, _, k, p) in dl:
             if k == 'st':
                 rv = p[1]
                 if rv[0] == 'bin':
@@ -984,3 +1002,31 @@ def call_outcome(fn, call, uses=None):
 
 def reachable_from_entry_cutting(fn, cut_edges, cut_blocks=()):
     return reachable(fn, [0], cut_blocks=cut_blocks, cut_edges=cut_edges)
+
+
+def must_pass_edges(fn, bb, dom=None):
+    """Switch edges (a, s) that every path from the entry to `bb` takes:
+    cutting the edge makes bb unreachable. Only switches dominating bb can qualify."""
+    dom = dom or dominators(fn)
+    out = []
+    for a in sorted(dom[bb]):
+        t = fn.bbs[a]['t']
+        if t[0] != 'sw' or a == bb and False:
+            continue
+        for s in set(succs(fn, a)):
+            if bb not in reachable(fn, [0], cut_edges={(a, s)}):
+                out.append((a, s))
+    return out
+
+
+def necessary_condition_sources(fn, bb, defs=None, cd=None, dom=None):
+    """Union of the slices of the switch operands that are necessary conditions
+    of reaching bb, as a list of (switch_bb, succ, Slice)."""
+    defs = defs or Defs(fn)
+    cd = cd if cd is not None else control_deps(fn)
+    out = []
+    for (a, s) in must_pass_edges(fn, bb, dom):
+        t = fn.bbs[a]['t']
+        sl = backward_slice(fn, [t[1]], defs, cd=cd)
+        out.append((a, s, sl))
+    return out
